@@ -70,7 +70,31 @@ static int runu(int argc, tok_t *a, out_t *o, fu_t f) {
   return 0;
 }
 #define OPU(fn) static int op_##fn(int argc, tok_t *a, out_t *o) { return runu(argc, a, o, mpz_##fn); }
-OPU(tdiv_q_ui) OPU(fdiv_q_ui) OPU(cdiv_q_ui)
+OPU(tdiv_q_ui) OPU(fdiv_q_ui) OPU(cdiv_q_ui) OPU(tdiv_r_ui) OPU(fdiv_r_ui) OPU(cdiv_r_ui)
+/* alias_<fn> <q> <r> <n> <d> <v0..v3>: mpz_<fn> (var q, var r, var n, d), q != r */
+typedef mpir_ui (*fu2_t)(mpz_ptr, mpz_ptr, mpz_srcptr, mpir_ui);
+static int runu2(int argc, tok_t *a, out_t *o, fu2_t f) {
+  if (argc != 8) return -1;
+  for (int i = 0; i < 8; i++) if (a[i].kind != T_NUM) return -1;
+  long q = tok_long(&a[0]), r = tok_long(&a[1]), u = tok_long(&a[2]);
+  if (q < 0 || q > 3 || r < 0 || r > 3 || u < 0 || u > 3 || q == r || a[3].neg || a[3].n > 1) return -1;
+  unsigned long d = tok_ulong(&a[3]);
+  mpz_t v[4]; mp_limb_t *p0[4];
+  for (int i = 0; i < 4; i++) { mpz_init(v[i]); tok_mpz(v[i], &a[4 + i]); p0[i] = v[i]->_mp_d; }
+  mpir_ui ret = 0;
+  int e = GUARD(ret = f(v[q], v[r], v[u], d));
+  if (e) out_err(o, "div0");
+  else {
+    out_ulong(o, ret);
+    for (int i = 0; i < 4; i++) {
+      out_mpz(o, v[i]); out_long(o, v[i]->_mp_alloc); out_long(o, v[i]->_mp_d != p0[i]);
+    }
+  }
+  for (int i = 0; i < 4; i++) mpz_clear(v[i]);
+  return 0;
+}
+#define OPU2(fn) static int op_##fn(int argc, tok_t *a, out_t *o) { return runu2(argc, a, o, mpz_##fn); }
+OPU2(tdiv_qr_ui) OPU2(fdiv_qr_ui) OPU2(cdiv_qr_ui)
 #define OP4(fn) static int op_##fn(int argc, tok_t *a, out_t *o) { return run(argc, a, o, 0, mpz_##fn); }
 #define OP3(fn) static int op_##fn(int argc, tok_t *a, out_t *o) { return run(argc, a, o, mpz_##fn, 0); }
 OP4(tdiv_qr) OP4(fdiv_qr) OP4(cdiv_qr)
@@ -113,6 +137,8 @@ const opdef_t ops_alias[] = {
   {"alias_tdiv_q", op_tdiv_q}, {"alias_tdiv_r", op_tdiv_r}, {"alias_fdiv_q", op_fdiv_q}, {"alias_fdiv_r", op_fdiv_r},
   {"alias_cdiv_q", op_cdiv_q}, {"alias_cdiv_r", op_cdiv_r}, {"alias_mod", op_mod},
   {"alias_gcd", op_gcd}, {"alias_and", op_and}, {"alias_ior", op_ior}, {"alias_xor", op_xor}, {"alias_com", op_com}, {"alias_neg", op_neg}, {"alias_abs", op_abs}, {"alias_set", op_set},   /* alias_com w u _ _ … */
+  {"alias_tdiv_r_ui", op_tdiv_r_ui}, {"alias_fdiv_r_ui", op_fdiv_r_ui}, {"alias_cdiv_r_ui", op_cdiv_r_ui},
+  {"alias_tdiv_qr_ui", op_tdiv_qr_ui}, {"alias_fdiv_qr_ui", op_fdiv_qr_ui}, {"alias_cdiv_qr_ui", op_cdiv_qr_ui},
   {"alias_tdiv_q_ui", op_tdiv_q_ui}, {"alias_fdiv_q_ui", op_fdiv_q_ui}, {"alias_cdiv_q_ui", op_cdiv_q_ui},
   {"alias_mul_2exp", op_mul_2exp}, {"alias_tdiv_q_2exp", op_tdiv_q_2exp},
   {"alias_tdiv_r_2exp", op_tdiv_r_2exp}, {"alias_cdiv_q_2exp", op_cdiv_q_2exp}, {"alias_fdiv_q_2exp", op_fdiv_q_2exp},
